@@ -339,6 +339,8 @@ def _iterator_walk(run, f, det, hb, htr, want_start, want_target, hp):
     okshape = it_[0] == "call" and it_[2].endswith("Iterator::take")
     ta = [strip_wrappers(htr.norm(x)) for x in htr.call_args(it_[1])] if okshape else []
     succ = ta[0] if ta else None
+    if okshape and succ is not None and succ[0] == "call" and succ[2].endswith("iter::from_fn"):
+        return _from_fn_walk(run, f, det, hb, htr, want_start, want_target, hp, succ, ta, aa)
     okshape = okshape and succ is not None and succ[0] == "call" and (succ[2].endswith("iter::successors") or succ[2].endswith("::successors"))
     if not run.require(okshape, "O14.8", "walk-advances", "has_path returns Iterator::any over %s, not over successors(..).take(..)" % show(it_), "successors(first, next).take(n).any(test)"):
         return True
@@ -387,6 +389,73 @@ def _iterator_walk(run, f, det, hb, htr, want_start, want_target, hp):
     run.require(found_ok, "O14.9", "walk-found-returns-true", "the test of the walk is not `successor.id == target`", "any(|x| x.id == target): true exactly when a visited successor is the target")
     run.ok("O14.9", "walk-otherwise-false", "Iterator::any answers false when the chain ends or the bound is exhausted")
     # bound: take(graph.len())
+    n_ = ta[1] if len(ta) > 1 else None
+    bound_ok = n_ is not None and n_[0] == "call" and deadlock.is_map_method(f, hb.blocks[n_[1]], "len") and _map_root(htr.norm(htr.call_args(n_[1])[0]))[0] == "param"
+    run.require(bound_ok, "O14.7", "walk-step-bound", "the walk is bounded by take(%s); a chain through all n edges of the wait-for graph needs n = graph.len() steps" % (show(n_) if n_ else None),
+                "walk bounded by take(graph.len())")
+    return True
+
+
+def _from_fn_walk(run, f, det, hb, htr, want_start, want_target, hp, gen_call, ta, aa):
+    """The walk as a stateful generator:
+        let mut current = start;
+        from_fn(move || { let next = graph.get(&current)?; current = next.id; Some(next) }).take(graph.len()).any(|x| x.id == target)
+    Same obligations as for the loop and the `successors` form."""
+    from sendpaths import norm_try
+    gen = htr.norm(htr.call_args(gen_call[1])[0])
+    start_ok = adv_ok = yields_ok = False
+    sp_ = None
+    if gen[0] == "agg" and gen[1][0] == "closure":
+        cb = f.body(gen[1][1])
+        if cb is not None:
+            run.count_body(cb)
+            ctr = tracer_of(cb)
+            gets = [k for k in live_calls(cb) if deadlock.is_map_method(f, k, "get")]
+            if len(gets) == 1:
+                ka = [strip_wrappers(ctr.norm(x)) for x in ctr.call_args(gets[0].idx)]
+                key = strip_refs(ka[1])
+                # the lookup key is the captured cursor, the cursor is initialised with the start parameter
+                if ka[0][0] == "upvar" and key[0] == "upvar" and key[1] < len(gen[2]):
+                    sp_ = strip_wrappers(gen[2][key[1]])
+                    start_ok = sp_ == ("param", want_start) and _map_root(strip_wrappers(gen[2][ka[0][1]]))[0] == "param"
+                    cur = key[1]
+                    # every assignment to the cursor: the id of the entry just looked up (the `?` leaves on None before it)
+                    asg = [st for blk in cb.blocks for st in blk.stmts if st["k"] == "assign" and st["place"]["l"] == 1 and [e for e in st["place"]["p"] if e != "*"] == [cur]]
+                    payload = None
+                    good = []
+                    for st in asg:
+                        v = strip_refs(norm_try(ctr, ctr.rvalue(st["rv"])))
+                        ok_ = v[0] == "field" and strip_refs(v[2])[0] == "try_ok" and strip_wrappers(strip_refs(v[2])[1]) == ("call", gets[0].idx, callee(gets[0].term))
+                        good.append(ok_)
+                    adv_ok = bool(asg) and all(good)
+                    r = norm_try(ctr, ctr.local(0))
+                    mem = list(r[1]) if r[0] == "phi" else [r]
+                    somes = [m for m in mem if m[0] == "agg" and m[1][:3] == ("adt", "std::option::Option", "Some")]
+                    nones = [m for m in mem if m[0] in ("try_err", "try_err?") or (m[0] == "agg" and m[1][:3] == ("adt", "std::option::Option", "None"))]
+                    yields_ok = len(somes) == 1 and len(nones) == len(mem) - 1 and strip_refs(somes[0][2][0])[0] == "try_ok" and \
+                        strip_wrappers(strip_refs(somes[0][2][0])[1]) == ("call", gets[0].idx, callee(gets[0].term))
+    run.require(adv_ok and yields_ok, "O14.8", "walk-advances", "the generator of the walk is not `|| { let next = graph.get(&current)?; current = next.id; Some(next) }`: it does not yield the successor it looked up and continue from it",
+                "each step yields the successor just looked up and continues from it; the chain ends where the lookup finds nothing")
+    test = aa[1]
+    found_ok = cmp_is_target = False
+    if test[0] == "agg" and test[1][0] == "closure":
+        cb = f.body(test[1][1])
+        if cb is not None:
+            run.count_body(cb)
+            ctr = tracer_of(cb)
+            r = strip_wrappers(ctr.norm(ctr.local(0)))
+            if r[0] == "binop" and r[1] == "Eq" and not list(live_calls(cb)):
+                sides = [strip_wrappers(r[2]), strip_wrappers(r[3])]
+                fld = [x for x in sides if x[0] == "field" and strip_wrappers(x[2]) == ("param", 2)]
+                upv = [x for x in sides if x[0] == "upvar"]
+                found_ok = len(fld) == 1 and len(upv) == 1
+                if found_ok and upv[0][1] < len(test[2]):
+                    cmp_is_target = strip_wrappers(test[2][upv[0][1]]) == ("param", want_target)
+    run.require(start_ok and cmp_is_target, "O14.5", "walk-direction",
+                "has_path starts its walk at %s and looks for %s; ask passes the callee's id as #%d and the caller's id as #%d (the walk must ask 'can the callee reach me')" % (show(sp_) if sp_ else None, "the wrong value" if not cmp_is_target else "the target", want_start, want_target),
+                "walk starts at the callee's id and looks for the caller's id", loc=det.loc(hp))
+    run.require(found_ok, "O14.9", "walk-found-returns-true", "the test of the walk is not `successor.id == target`", "any(|x| x.id == target): true exactly when a visited successor is the target")
+    run.ok("O14.9", "walk-otherwise-false", "Iterator::any answers false when the chain ends or the bound is exhausted")
     n_ = ta[1] if len(ta) > 1 else None
     bound_ok = n_ is not None and n_[0] == "call" and deadlock.is_map_method(f, hb.blocks[n_[1]], "len") and _map_root(htr.norm(htr.call_args(n_[1])[0]))[0] == "param"
     run.require(bound_ok, "O14.7", "walk-step-bound", "the walk is bounded by take(%s); a chain through all n edges of the wait-for graph needs n = graph.len() steps" % (show(n_) if n_ else None),
